@@ -362,6 +362,12 @@ KIND = {k.name: k for k in KINDS}
 # ---------------------------------------------------------------------------------------------
 # family (I): ODXLINK scenarios
 # ---------------------------------------------------------------------------------------------
+def subsets_of(xs: List[str]) -> List[List[str]]:
+    return [list(c) for n in range(len(xs) + 1) for c in itertools.combinations(xs, n)]
+
+
+SPEC_REF = {"ref": "SID.SPEC0", "doc": ("SPEC0", "COMPARAM-SPEC")}
+SPEC0 = {"sn": "SPEC0", "id": "SID.SPEC0", "m": "spec:SPEC0", "stacks": []}
 LOCS = ["LR", "LS", "LO", "LE"]  # where "X" may be defined
 IMPORTERS = ["LR", "LS", "LO"]
 FORMS: Dict[str, Optional[Tuple[str, str]]] = {
@@ -403,7 +409,11 @@ def id_world(sc: Dict[str, Any]) -> Tuple[Dict[str, Any], Dict[str, Any]]:
     ca = {"sn": "CA", "id": "CID.CA", "m": "container:CA", "layers": [LS, LR] if sc.get("s_first") else [LR, LS]}
     cb = {"sn": "CB", "id": "CID.CB", "m": "container:CB", "layers": [LO, LQ]}
     cs = {"sn": "CS", "id": "CID.CS", "m": "container:CS", "layers": [LE]}
-    world = {"containers": [cb, ca, cs] if sc.get("cb_first") else [ca, cb, cs]}
+    world: Dict[str, Any] = {"containers": [cb, ca, cs] if sc.get("cb_first") else [ca, cb, cs]}
+    if rtype == "PROTOCOL":
+        for l in (LR, LS):
+            l["comparam_spec"] = copy.deepcopy(SPEC_REF)
+        world["specs"] = [copy.deepcopy(SPEC0)]
     probe = {"mode": "id", "owner": ("layer", "LR"), "ref": ref}
     return world, probe
 
@@ -463,30 +473,51 @@ def id_key(sc: Dict[str, Any], mode: str, scope: str, expected: Tuple[str, str],
     return f"C10/{fam}/{sc['form']}{rt}/{mode}/expected={exp}/bound={loc_class(got)}"
 
 
+def dontcare_class(why: str) -> str:
+    import re
+    return re.sub(r"\(.*?\)|\bID \S+|\d+ times", "", why).strip()
+
+
 def describe(sc: Dict[str, Any]) -> str:
     return (f"referrer LR ({sc.get('rtype', 'BASE-VARIANT')}) in CA, {sc['form']}, ID X defined in {sc['defs'] or 'no layer'}, "
             f"LE imported by {sc['imports'] or 'nobody'}, " + ("LS before LR" if sc.get("s_first") else "LR before LS") +
             (", CB loaded first" if sc.get("cb_first") else ""))
 
 
+RTYPES = ["BASE-VARIANT", "ECU-VARIANT", "FUNCTIONAL-GROUP", "PROTOCOL", "ECU-SHARED-DATA"]
+
+
 def id_cells(quick: bool) -> List[Dict[str, Any]]:
-    """all (form, defs, imports, orders, referrer type) cells; each cell is evaluated for every reference kind"""
+    """all (form, defs, imports, orders, referrer type) cells; a cell is evaluated for every reference kind, or (quick
+    tier, "core" cells) for the core kinds only"""
     cells = []
-    subsets = lambda xs: [list(c) for n in range(len(xs) + 1) for c in itertools.combinations(xs, n)]  # noqa: E731
     for form in FORMS:
-        for defs in subsets(LOCS):
-            for imps in subsets(IMPORTERS):
+        for defs in subsets_of(LOCS):
+            for imps in subsets_of(IMPORTERS):
                 for s_first in (False, True):
                     for cb_first in (False, True):
+                        cell = {"form": form, "defs": defs, "imports": imps, "s_first": s_first, "cb_first": cb_first}
                         if quick:
-                            # quick: at most one importer; document orders only where they can matter
+                            # quick: at most one importer; document orders only where they can matter; kinds outside
+                            # the core set only without import and with the sibling importing first
                             if len(imps) > 1:
                                 continue
                             if s_first and imps != ["LS"]:
                                 continue
                             if cb_first and imps != ["LO"]:
                                 continue
-                        cells.append({"form": form, "defs": defs, "imports": imps, "s_first": s_first, "cb_first": cb_first})
+                            if not (imps == [] or (imps == ["LS"] and s_first)):
+                                cell["core_only"] = True
+                        cells.append(cell)
+    if not quick:
+        # the referrer is a layer of another type (each type has its own raw class and resolution code path)
+        for rtype in RTYPES[1:]:
+            for form in FORMS:
+                for defs in subsets_of(LOCS):
+                    for imps, s_first in (([], False), (["LR"], False), (["LS"], True)):
+                        if rtype == "ECU-SHARED-DATA" and imps:
+                            continue
+                        cells.append({"form": form, "defs": defs, "imports": imps, "s_first": s_first, "cb_first": False, "rtype": rtype})
     return cells
 
 
@@ -495,13 +526,19 @@ def id_unit(unit: Tuple[List[Dict[str, Any]], List[str]]) -> Part:
     part = Part()
     for cell in cells:
         results = []
+        cell = dict(cell)
+        core_only = cell.pop("core_only", False)
         for kn in kinds:
+            if core_only and not KIND[kn].core:
+                continue
             sc = dict(cell, kind=kn)
             expected, fail, observed = run_id_scenario(sc)
             part.count("evaluations")
             part.count("odxlink_scenarios")
             part.count("expect_" + expected[0].lower())
             part.add("outcome_classes", (expected[0], observed.split(":")[0]))
+            if expected[0] == "DONTCARE":
+                part.add("dontcare_observations", (dontcare_class(expected[1]), observed if observed.startswith("bound:T@") else observed.split(":")[0]))
             if observed.startswith("raised:"):
                 part.add("exception_types", observed[7:])
             part.add("nontrivial", digest((kn, cell["form"], cell["defs"], cell["imports"], expected[0], observed.split(":")[0])))
@@ -535,8 +572,6 @@ D_LAYER_FORMS: Dict[str, Optional[Tuple[str, str]]] = {
     "docref-missing-document": ("NOWHERE", "LAYER"),
     "docref-wrong-doctype": ("LS", "CONTAINER"),
 }
-SPEC_REF = {"ref": "SID.SPEC0", "doc": ("SPEC0", "COMPARAM-SPEC")}
-SPEC0 = {"sn": "SPEC0", "id": "SID.SPEC0", "m": "spec:SPEC0", "stacks": []}
 
 
 def d_world(sc: Dict[str, Any]) -> Tuple[Dict[str, Any], Dict[str, Any], Callable[[Any], Any]]:
@@ -649,10 +684,6 @@ def d_world(sc: Dict[str, Any]) -> Tuple[Dict[str, Any], Dict[str, Any], Callabl
 D_DOC_KINDS = ["layer/COMPARAM-REF", "service/COMPARAM-REF", "protocol/COMPARAM-SPEC-REF", "prot-stack/COMPARAM-SUBSET-REF",
                "comparam/DATA-OBJECT-PROP-REF"]
 D_DOC_FORMS = ["no-docref", "docref-first-document", "docref-second-document", "docref-missing-document", "docref-wrong-doctype", "docref-layer"]
-
-
-def subsets_of(xs: List[str]) -> List[List[str]]:
-    return [list(c) for n in range(len(xs) + 1) for c in itertools.combinations(xs, n)]
 
 
 def d_scenarios() -> List[Dict[str, Any]]:
@@ -912,8 +943,8 @@ def s_scenarios(quick: bool) -> List[Dict[str, Any]]:
             for defs in subsets_of(S_LOCS):
                 for ni in ([], ["LR"], ["LP"], ["LR", "LP"]):
                     for imp in (False, True):
-                        if quick and imp and "LE" not in defs:
-                            continue  # an import can only matter if the shared layer defines N
+                        if quick and ((imp and "LE" not in defs) or len(ni) > 1):
+                            continue  # quick: an import can only matter if the shared layer defines N; one exclusion at a time
                         out.append({"fam": "S", "kind": kind, "owner": owner, "defs": defs, "ni": ni, "import": imp})
         # N names an object of another kind, in the owner / its parent; N twice in the owner
         for owner in ("LR", "LP"):
